@@ -789,7 +789,8 @@ impl<'a> Parser<'a> {
         let (end, if_true) = self.parse_branch(next, depth)?;
         let mut end = self.optional_whitespace(end)?;
         let mut if_false: Expr = Expr::Empty;
-        if self.re[end..].starts_with('|') {
+        let has_false_branch = self.re[end..].starts_with('|');
+        if has_false_branch {
             // the remaining branches become the false branch
             let (after_false, child) = self.parse_re(end + 1, depth)?;
             end = after_false;
@@ -821,7 +822,10 @@ impl<'a> Parser<'a> {
         let after = self.check_for_close_paren(end)?;
         Ok((
             after,
-            if if_true == Expr::Empty && if_false == Expr::Empty {
+            // (with an explicit `|` a conditional whose branches are both empty, `(?(1)|)`, still
+            // chooses between them: it must not turn into the bare condition, which fails where
+            // the condition is false)
+            if if_true == Expr::Empty && if_false == Expr::Empty && !has_false_branch {
                 inner_condition
             } else {
                 Expr::Conditional {
